@@ -121,9 +121,10 @@ Definition sh_version (s : shello) : Z :=
   else sh_ver s.
 
 (* ---- server: version selection (tlsconnection.py 3449-3466, 3729-3755) -------- *)
-(* settings.versions after validate(): [1.3;1.2;1.1;1.0] without 1.3 when max < 1.3 *)
-Definition server_versions (smax : Z) : list Z :=
-  if smax <? TLS13 then [TLS12; TLS11; TLS10] else [TLS13; TLS12; TLS11; TLS10].
+(* settings.versions after validate(): [1.3;1.2;1.1;1.0] clipped to [minVersion, maxVersion]
+   (HandshakeSettings._sanityCheckProtocolVersions) *)
+Definition server_versions (smin smax : Z) : list Z :=
+  filter (fun v => (smin <=? v) && (v <=? smax)) [TLS13; TLS12; TLS11; TLS10].
 
 Fixpoint first_matching (vals matches : list Z) : option Z :=
   match vals with
@@ -150,7 +151,7 @@ Definition sel_version (smin smax : Z) (c : chello) : sel :=
   if ch_real_version c <? smin then SelErr ALERT_PROTOCOL_VERSION
   else match find_ext X_VERSIONS (ch_exts c) with
        | Some vs =>
-           match first_matching (server_versions smax) vs with
+           match first_matching (server_versions smin smax) vs with
            | Some v => SelOk v
            | None => SelErr ALERT_PROTOCOL_VERSION
            end
@@ -180,13 +181,12 @@ Definition sentinel_hit (cmax v tail : Z) : bool :=
 
 Inductive verdict := VOk | VAbort (alert : Z).
 
-(* 1100-1143 then 544-560; suite_ok abstracts CipherSuite.filterForVersion.  Faithful to the code:
-   a version above maxVersion is still accepted when it is in settings.versions, which validate()
-   only trims of TLS 1.3 (a C03 finding; here it only matters for which alert is predicted). *)
+(* _clientGetServerHello checks, then the sentinel checks of _handshakeClientAsyncHelper; suite_ok abstracts
+   CipherSuite.filterForVersion.  `real_version > maxVersion and real_version not in settings.versions` *)
 Definition client_sh_check (suite_ok : Z -> Z -> bool) (cmin cmax : Z) (c : chello) (s : shello) : verdict :=
   let v := sh_version s in
   if v <? cmin then VAbort ALERT_PROTOCOL_VERSION
-  else if (v >? cmax) && negb (memZ v (server_versions cmax)) then VAbort ALERT_PROTOCOL_VERSION   (* 1121: `and real_version not in settings.versions` *)
+  else if (v >? cmax) && negb (memZ v (server_versions cmin cmax)) then VAbort ALERT_PROTOCOL_VERSION
   else if (v >? TLS12) && negb (sh_sid s =? ch_sid c) then VAbort ALERT_ILLEGAL_PARAMETER
   else if negb (memZ (sh_suite s) (ch_suites c) && suite_ok v (sh_suite s)) then VAbort ALERT_ILLEGAL_PARAMETER
   else if sentinel_hit cmax v (sh_tail s) then VAbort ALERT_ILLEGAL_PARAMETER
@@ -430,7 +430,8 @@ Section Flows.
     end end.
 
   (* ============ TLS <= 1.2, abbreviated handshake (session id / ticket) ========= *)
-  (* the resumed ServerHello is built at tlsconnection.py 4042-4046: NO sentinel is written there *)
+  (* the resumed ServerHello is built in _serverGetClientHello; since /repo 9a5e0f9 the sentinel is written
+     there too (before that fix it was not: the statement sentinel_written was refuted for this flow) *)
   Definition run12r (a1 a2 a3 : list msg -> list msg) : outcome :=
     let ch := c_hello in
     let d1 := a1 [MCH ch] in
@@ -439,7 +440,8 @@ Section Flows.
     | SelErr a => stop 2 a
     | SelOk v =>
     if v >=? TLS13 then stop 2 0 else
-    let? (sh, ks) := s_resume v ch' else stop 2 ALERT_HANDSHAKE_FAILURE in
+    let? (sh0, ks) := s_resume v ch' else stop 2 ALERT_HANDSHAKE_FAILURE in
+    let sh := set_tail sh0 (sentinel_for smax v (sh_tail sh0)) in
     let Ts1 := [MCH ch'; MSH sh] in
     let vs := fin ks L_SERVER (hash (alg_of sh) Ts1) in
     let Ts2 := Ts1 ++ [MFin vs] in
